@@ -93,6 +93,60 @@ def retrieves(v, r, names, path="$"):
     return "%s: unexpected input %r" % (path, v)
 
 
+def constructed_by(elem, v, r, path="$", depth=0):
+    """schema-directed half of the oracle, along the deterministic positions only (typed arrays and object classes, no
+    composition, no member that a patternProperties regex also matches): every member is BUILT by the element responsible
+    for its position - an object under a class comes back as an instance of it with its declared properties readable as
+    attributes under their Python names, an int under Number as a float.  None if so, else a description."""
+    import re
+    from statham.schema.elements import Array, Element, Number
+    from statham.schema.elements.meta import ObjectMeta
+    if depth > 8:
+        return None
+    if isinstance(elem, ObjectMeta):
+        if not isinstance(v, dict):
+            return None
+        if not isinstance(r, elem):
+            return "%s: an object accepted by class %s came back as %s, not as an instance of it" % (path, elem.__name__, type(r).__name__)
+        pats = list(getattr(elem, "patternProperties", None) or {}) if isinstance(getattr(elem, "patternProperties", None), dict) else []
+        for name, p in elem.properties.items():
+            src = p.source if p.source is not None else name
+            if src not in v or (name != src and name in v):        # omitted (C05's subject) / K13 collision
+                continue
+            try:
+                if any(re.search(pt, src) for pt in pats):
+                    continue
+            except re.error:
+                continue
+            try:
+                attr = getattr(r, name)
+            except AttributeError:
+                return "%s: declared property %r is not readable as an attribute" % (path, name)
+            w = constructed_by(p.element, v[src], attr, "%s.%s" % (path, name), depth + 1)
+            if w:
+                return w
+        return None
+    if type(elem) is Array:
+        if not isinstance(v, list) or not isinstance(r, list) or len(r) != len(v):
+            return None                                            # length / kind: judged by `retrieves`
+        items = getattr(elem, "items", None)
+        addl = getattr(elem, "additionalItems", True)
+        for i, (x, y) in enumerate(zip(v, r)):
+            if isinstance(items, list):
+                sub = items[i] if i < len(items) else (addl if isinstance(addl, (Element, ObjectMeta)) else None)
+            else:
+                sub = items if isinstance(items, (Element, ObjectMeta)) else None
+            if sub is not None:
+                w = constructed_by(sub, x, y, "%s[%d]" % (path, i), depth + 1)
+                if w:
+                    return w
+        return None
+    if type(elem) is Number:
+        if isinstance(v, int) and not isinstance(v, bool) and type(r) is not float:
+            return "%s: the integer %r accepted by a number schema came back as %s, not as the equal float" % (path, v, type(r).__name__)
+    return None
+
+
 TEMPLATES = [
     ({"classes": {"Foo": {"k": "Obj", "name": "Foo", "base": None, "doc": None, "kw": {"patternProperties": {"^c": {"k": "String", "kw": {}}}},
                           "props": {"class_": {"e": {"k": "String", "kw": {}}, "required": False, "source": "class"},
@@ -153,6 +207,11 @@ def run(tier, seed, replay=None):
                     fid = "C04-K13"
                     stats["k13_inputs"] += 1
             res.violation(dict(payload, kind="oracle", value=v, finding=fid, what=why))
+            return
+        why = constructed_by(root, v, r)
+        stats["construct_checked"] = stats.get("construct_checked", 0) + 1
+        if why:
+            res.violation(dict(payload, kind="oracle", value=v, what=why))
 
     for doc, vals in items:
         try:
